@@ -41,7 +41,7 @@ CFG = dict(
          "for all its calls (an empty reply must overwrite it); payload sizes {0,1,17,1023,1024,4096,65536} of seeded random bytes. (A) lock-step, EVERY interleaving of the 2k wire "
          "deliveries and k handler releases for k <= 3 callers (thorough 4) on serialising and by-reference wires, k <= 2 (thorough 3) "
          "through the real Proxy and the real Demux; (B) seeded random lock-step schedules, 1..8 callers x 1..3 calls, three topologies; "
-         "(C) free-running (no gating, seeded yields at the verif hooks): 64 callers x 200 calls at GOMAXPROCS 1/4/16, 8 x 100 through "
+         "(C) free-running (no gating, seeded yields at the verif hooks): 64 callers x 100 (thorough 200) calls at GOMAXPROCS 1/4/16, 8 x 100 through "
          "Proxy and Demux, and 12 (thorough 60) runs of 25 rounds in which 64 goroutines leave the fail-fast check of CallUnaryMethod at "
          "the same instant (spin barrier at the mux.checked hook); (D) PLAIN calls - no outgoing metadata, no deadline, handler linked to "
          "its call by the payload - several in sequence per caller on ONE method, over by-reference and serialising wires, direct / real "
